@@ -501,7 +501,11 @@ def main(argv):
             if data.get("kind") == "broken-obligation":
                 tmp = os.path.join(work, "case.json")
                 json.dump(data["case"], open(tmp, "w"))
-            rc, o, _ = run([os.path.join(BUILD, "harness"), pid, "--replay", os.path.abspath(tmp)], cwd=work,
+            from props import PROPS
+            binary = PROPS.get(pid, {}).get("binary", "harness")
+            if binary == "harness_race":
+                build_harness_race()
+            rc, o, _ = run([os.path.join(BUILD, binary), pid, "--replay", os.path.abspath(tmp)], cwd=work,
                            env=dict(os.environ, VERIF_TMP=work))
             print(o)
             return rc
